@@ -5,6 +5,7 @@ import (
 	"crypto/tls"
 	"errors"
 	"fmt"
+	"google.golang.org/protobuf/proto"
 	"net/http"
 	"os"
 	"path/filepath"
@@ -684,52 +685,112 @@ func c20Shared(c *sim.Case) {
 	defer cancel()
 	pool := internal.NewTLSConfigPool(ctx)
 	file := filepath.Join(e.dir, fmt.Sprintf("shared-%d.pem", atomic.AddInt64(&c20File, 1)))
-	_ = os.WriteFile(file, e.cas[0].PEM, 0o644)
-	mk := func(has bool, iv time.Duration) *oidcv1.OIDCConfig {
-		cfg := &oidcv1.OIDCConfig{TrustedCaConfig: &oidcv1.OIDCConfig_TrustedCertificateAuthorityFile{TrustedCertificateAuthorityFile: file}}
-		if has {
-			cfg.TrustedCertificateAuthorityRefreshInterval = durationpb.New(iv)
+	content := 0
+	_ = os.WriteFile(file, e.cas[content].PEM, 0o644)
+	type shared struct {
+		desc     string
+		cfg      *oidcv1.OIDCConfig
+		tc       *tls.Config
+		interval time.Duration
+		loadedCA int // what the file held when this setting was loaded
+	}
+	var loaded []*shared
+	lastLoad := -1 // index of the setting loaded last: if it asks for reloads its watcher is the live one
+	var maxIv time.Duration
+	probe := func(sh *shared, want int, sig, why string) {
+		pr := &tlsProbe{cfg: sh.tc}
+		ok := func() bool {
+			for i := 0; i < 3; i++ {
+				if pr.try(fmt.Sprintf("ca%d.tls.test", i)) != (i == want) {
+					return false
+				}
+			}
+			return true
 		}
-		return cfg
-	}
-	quietHas := sim.Bool(c, "quiet.explicit-zero")
-	iv := []time.Duration{150 * time.Millisecond, 300 * time.Millisecond, 900 * time.Millisecond, 1100 * time.Millisecond, 1500 * time.Millisecond}[sim.Pick(c, "watched.interval", 5)]
-	quiet, watched := mk(quietHas, 0), mk(true, iv)
-	tq, err1 := pool.LoadTLSConfig(quiet)
-	tw, err2 := pool.LoadTLSConfig(watched)
-	if err1 != nil || err2 != nil || tq == nil || tw == nil {
-		c.Violation("load-error", "loading two settings on one CA file: %v / %v", err1, err2)
-	}
-	c.Logf("one CA file; first setting without reloads (explicit zero: %v), second with interval %v", quietHas, iv)
-	for name, tc := range map[string]*tls.Config{"unwatched": tq, "watched": tw} {
-		pr := &tlsProbe{cfg: tc}
-		if !pr.try("ca0.tls.test") || pr.try("ca1.tls.test") {
-			c.Violation("shared-file:wrong-trust-before-rotation", "%s setting: trust before any rotation is not exactly CA_0", name)
+		deadline := time.Now().Add(5 * time.Second)
+		for !ok() && time.Now().Before(deadline) {
+			time.Sleep(20 * time.Millisecond)
+		}
+		if !ok() {
+			c.Violation(sig, "setting %s on the shared CA file: %s (want trust in exactly CA_%d; file history so far ends in CA_%d)", sh.desc, why, want, content)
 		}
 	}
-	_ = os.WriteFile(file, e.cas[1].PEM, 0o644)
-	time.Sleep(iv + 60*time.Millisecond)
-	pw, pq := &tlsProbe{cfg: tw}, &tlsProbe{cfg: tq}
-	deadline := time.Now().Add(5 * time.Second)
-	for !(pw.try("ca1.tls.test") && !pw.try("ca0.tls.test")) && time.Now().Before(deadline) {
-		time.Sleep(20 * time.Millisecond)
+	n := 3 + sim.Pick(c, "steps", 5)
+	rotations := 0
+	for i := 0; i < n; i++ {
+		if sim.Weighted(c, "step", 3, 2) == 0 || len(loaded) == 0 {
+			// load one more setting that names the file. Settings that ask for reloads come last or are followed only by
+			// other settings that ask for reloads: loading one that does not would re-watch the file without a watcher,
+			// and what the superseded one does then is its own business
+			watched := sim.Weighted(c, "load.watched", 1, 2) == 1
+			if lastLoad >= 0 && loaded[lastLoad].interval > 0 {
+				watched = true
+			}
+			sh := &shared{loadedCA: content}
+			sh.cfg = &oidcv1.OIDCConfig{TrustedCaConfig: &oidcv1.OIDCConfig_TrustedCertificateAuthorityFile{TrustedCertificateAuthorityFile: file}}
+			if watched {
+				sh.interval = []time.Duration{150 * time.Millisecond, 300 * time.Millisecond, 900 * time.Millisecond, 1100 * time.Millisecond, 1500 * time.Millisecond}[sim.Pick(c, "load.interval", 5)]
+				sh.cfg.TrustedCertificateAuthorityRefreshInterval = durationpb.New(sh.interval)
+				if sh.interval > maxIv {
+					maxIv = sh.interval
+				}
+			} else if sim.Bool(c, "load.explicit-zero") {
+				sh.cfg.TrustedCertificateAuthorityRefreshInterval = durationpb.New(0)
+			}
+			// another spelling of "do not skip verification" makes it another setting with the same meaning
+			if k := sim.Pick(c, "load.skip", 3); k == 1 {
+				sh.cfg.SkipVerifyPeerCert = structpb.NewBoolValue(false)
+			} else if k == 2 {
+				sh.cfg.SkipVerifyPeerCert = structpb.NewStringValue("true") // ignored: a CA is configured
+			}
+			sh.desc = fmt.Sprintf("#%d{interval=%v skip=%v}", len(loaded), sh.interval, sh.cfg.SkipVerifyPeerCert)
+			for _, prev := range loaded {
+				if proto.Equal(prev.cfg, sh.cfg) {
+					sh = nil // identical settings are C20's other clause; here every setting is a new one
+					break
+				}
+			}
+			if sh == nil {
+				continue
+			}
+			tc, err := pool.LoadTLSConfig(sh.cfg)
+			if err != nil || tc == nil {
+				c.Violation("load-error", "loading %s on the shared CA file: %v", sh.desc, err)
+			}
+			sh.tc = tc
+			loaded = append(loaded, sh)
+			lastLoad = len(loaded) - 1
+			c.Logf("load %s while the file holds CA_%d", sh.desc, content)
+			probe(sh, content, "shared-file:wrong-trust-at-load", "right after loading it does not trust what the file holds")
+			continue
+		}
+		// rotate: to another CA, possibly back to one the file held before
+		content = (content + 1 + sim.Pick(c, "rotate.to", 2)) % 3
+		_ = os.WriteFile(file, e.cas[content].PEM, 0o644)
+		rotations++
+		c.Logf("rotate the file to CA_%d", content)
+		time.Sleep(maxIv + 60*time.Millisecond)
+		for j, sh := range loaded {
+			switch {
+			case sh.interval == 0:
+				probe(sh, sh.loadedCA, "shared-file:unwatched-setting-changed", "it does not ask for reloads, yet no longer trusts exactly what it loaded")
+			case j == lastLoad:
+				probe(sh, content, "shared-file:watched-setting-does-not-follow", fmt.Sprintf("it was loaded last and reloads every %v, yet does not trust exactly the new content after the rotation", sh.interval))
+			}
+		}
 	}
-	if !pw.try("ca1.tls.test") || pw.try("ca0.tls.test") {
-		c.Violation("shared-file:watched-setting-does-not-follow", "the setting with refresh interval %v still does not trust exactly the new content of its CA file %v after the rotation (another setting on the same file, without reloads, was loaded before it)", iv, time.Since(deadline.Add(-5*time.Second)))
+	if rotations > 0 && len(loaded) > 1 {
+		c.NonTrivial()
 	}
-	if !pq.try("ca0.tls.test") || pq.try("ca1.tls.test") {
-		c.Violation("shared-file:unwatched-setting-changed", "the setting without a refresh interval no longer trusts exactly what it loaded, after the file was rotated for a sibling setting")
-	}
-	c.NonTrivial()
 	c.Class("shared-file")
-	c.FP("shared", quietHas, iv)
+	c.FP("shared", len(loaded), rotations, fmt.Sprint(c.Trace))
 }
 
 func TestC20(t *testing.T) {
 	c20Setup()
 	r := sim.NewRun(t, "C20")
 	defer r.Finish()
-	r.Rule = "per case 1-3 TLS settings: CA none / inline CA_i / CA file; skip-verify unset, true, false or a string (\"true\", \"false\", \"1\", \"TRUE\", \"yes\", \"\"); refresh interval unset, 0, 20 ms, 50 ms; histories of load (single and 2-4 concurrent), file rewrite (another CA, same bytes, garbage), wait, and HTTPS requests through clients built by the real NewHTTPClient against in-memory TLS servers whose certificates chain to the process system root (injected via SSL_CERT_FILE), CA_0..2 or a foreign CA; a closing round handshakes with every CA server after the longest interval. Oracle: reference trust function with the effective CA of a watched file = last valid content older than the interval (handshakes inside the interval are 'either', polled up to 5 s); pointer identity for identical settings; every configuration ever returned must follow a rotation. Part 'shared-file': two settings on one CA file, the first without reloads, the second with an interval of 150 ms - 1.5 s; after a rotation the second trusts the new content only and the first what it loaded. Separate state machine on FileWatcher with counting readers (watch, re-watch the same id, cancel). Non-trivial = the history rotated a CA file and afterwards handshook successfully with the new-CA server and unsuccessfully with an old-CA server / a watcher was superseded; distinct = distinct (settings, trace)."
+	r.Rule = "per case 1-3 TLS settings: CA none / inline CA_i / CA file; skip-verify unset, true, false or a string (\"true\", \"false\", \"1\", \"TRUE\", \"yes\", \"\"); refresh interval unset, 0, 20 ms, 50 ms; histories of load (single and 2-4 concurrent), file rewrite (another CA, same bytes, garbage), wait, and HTTPS requests through clients built by the real NewHTTPClient against in-memory TLS servers whose certificates chain to the process system root (injected via SSL_CERT_FILE), CA_0..2 or a foreign CA; a closing round handshakes with every CA server after the longest interval. Oracle: reference trust function with the effective CA of a watched file = last valid content older than the interval (handshakes inside the interval are 'either', polled up to 5 s); pointer identity for identical settings; every configuration ever returned must follow a rotation. Part 'shared-file': histories of 3-7 steps on ONE CA file - load one more setting (without reloads, or with an interval of 150 ms - 1.5 s; other spellings of skip-verify) or rotate the file to another CA, also back to an earlier one; after every rotation the setting loaded last, if it asks for reloads, trusts exactly the new content and every setting without reloads exactly what it loaded. Separate state machine on FileWatcher with counting readers (watch, re-watch the same id, cancel). Non-trivial = the history rotated a CA file and afterwards handshook successfully with the new-CA server and unsuccessfully with an old-CA server / a watcher was superseded; distinct = distinct (settings, trace)."
 	r.Assumptions = []string{"real time: outcomes inside a refresh interval are not judged; expected outcomes after a rotation are polled for up to 5 s", "distinct settings that both ask for reloads use distinct files (re-watching a file supersedes the earlier watcher, by the statement)"}
 	parts := map[string]func(*sim.Case){"trust": c20Prop, "watcher": c20Watcher, "shared-file": c20Shared}
 	if r.Replay != "" {
